@@ -244,8 +244,13 @@ def program_level(rep, prop, tier, resource, drv, light=False):
         o, b = outs[j], base[i]
         cov["runs"] += 1
         if o.get("timeout") or o.get("crash") or o.get("panic"):
-            rep.violation({"kind": "crash-or-hang", "family": progs[i][0], "what": "timeout" if o.get("timeout") else "panic"},
-                          {"src": c["src"], resource: L, "observed": {k: v for k, v in o.items() if k != "trace"}})
+            sig = {"kind": "crash-or-hang", "family": progs[i][0], "what": "timeout" if o.get("timeout") else "panic"}
+            if re.search(r"limit of \d+ exceeded|force kill", str(o.get("panic") or "")):
+                # the termination itself reached the host as a Go panic instead of being turned into the status "killed";
+                # whether the program suspends a coroutine inside a protected call (F47) is read off its text
+                sig["panic_class"] = "termination-escaped"
+                sig["yield_in_protected_call"] = bool(re.search(r"pcall\(function\(\)[^\n]*\n(?:(?!end\)\)).*\n)*?\s*coroutine\.yield", c["src"]))
+            rep.violation(sig, {"src": c["src"], resource: L, "observed": {k: v for k, v in o.items() if k != "trace"}})
             continue
         killed = o.get("status") == "killed"
         cov["killed_runs" if killed else "completed_runs"] += 1
